@@ -1,4 +1,183 @@
-From Coq Require Import List ZArith QArith.
+(* C49 Quantum-information functions match their definitions.
+   Statements only; every proof is `exact <lemma>` from Num/QInfoProofs.v.
+   Exact model: matrices = quad-trees over Gaussian rationals (wf n t: t is a 2^n x 2^n matrix), state vectors =
+   binary trees (vwf n v); teq / ceq / == are entrywise equality of rationals.
+   Everything below holds for ALL qubit numbers n unless the name carries a bound (_le3).
+   NOT proved here (validated numerically by the harness only): von Neumann / max / min entropy, mutual information,
+   relative entropy, trace distance, mixed-state fidelity and their inequalities. *)
+From Coq Require Import List ZArith QArith Bool Arith.
 From PLV Require Import Num.QInfoModel Num.QInfoProofs.
-Theorem stub : True. Proof. exact stub_true. Qed.
-Print Assumptions stub.
+Import ListNotations.
+Local Close Scope Q_scope.
+Local Open Scope nat_scope.
+
+(* ---------------------------------------------------------------- partial trace / reduce_dm *)
+(* the transcribed loop of partial_trace (sort, shifted target index, one einsum per wire) preserves the trace,
+   for every index list *)
+Theorem partial_trace_trace_preserved : forall n t idxs, wf n t ->
+  ceq (ttrace (partial_trace t idxs)) (ttrace t).
+Proof. exact partial_trace_trace. Qed.
+Print Assumptions partial_trace_trace_preserved.
+
+(* ... and equals the mask contraction: trace out exactly the wires in idxs (distinct, in range, any order) *)
+Theorem partial_trace_is_mask_contraction : forall n t idxs, wf n t ->
+  strictb (isort idxs) = true -> Forall (fun x => x < n) idxs ->
+  teq (partial_trace t idxs) (ptrace_mask (mask_of n idxs) t).
+Proof. exact partial_trace_mask. Qed.
+Print Assumptions partial_trace_is_mask_contraction.
+
+(* entries of the mask contraction are the explicit index-contraction sum over the traced bits *)
+Theorem mask_contraction_entries : forall m n t r c, length m = n -> wf n t ->
+  length r = count_false m -> length c = count_false m ->
+  ceq (tget (ptrace_mask m t) r c)
+      (csum (map (fun s => tget t (interleave m r s) (interleave m c s)) (all_bits (count_true m)))).
+Proof. exact ptm_contraction. Qed.
+Print Assumptions mask_contraction_entries.
+
+(* reduce_dm, kept wires listed in increasing order (not all wires): explicit contraction *)
+Theorem reduce_dm_is_contraction_sorted : forall n t ix r c, wf n t -> strictb ix = true -> length ix <> n ->
+  length r = count_false (traced_mask n ix) -> length c = count_false (traced_mask n ix) ->
+  ceq (tget (reduce_dm n t ix) r c) (contraction (traced_mask n ix) t r c).
+Proof. exact reduce_dm_sorted_contraction. Qed.
+Print Assumptions reduce_dm_is_contraction_sorted.
+
+(* reduce_dm, kept wires in any other order (distinct; `length ix = count_false ..` says they are in range):
+   output bit j is wire ix[j], i.e. the contraction is read at the re-ordered bit strings *)
+Theorem reduce_dm_is_contraction_unsorted : forall n t ix r c, wf n t -> strictb (isort ix) = true ->
+  length ix <> n -> list_eqb (isort ix) ix = false ->
+  length ix = count_false (traced_mask n ix) -> length r = length ix -> length c = length ix ->
+  ceq (tget (reduce_dm n t ix) r c)
+      (contraction (traced_mask n ix) t (gather (isort ix) ix r) (gather (isort ix) ix c)).
+Proof. exact reduce_dm_unsorted_contraction. Qed.
+Print Assumptions reduce_dm_is_contraction_unsorted.
+
+(* tr(reduce_dm rho) = tr(rho).  PARTIAL: proved for kept wires listed in increasing order; for other orders the
+   result is the axes permutation of this one (reduce_dm_unsorted, entry formula above) whose trace invariance
+   (a re-indexing of the diagonal sum) is not mechanised. *)
+Theorem reduce_dm_trace_preserved_partial : forall n t ix, wf n t -> strictb ix = true -> length ix <> n ->
+  ceq (ttrace (reduce_dm n t ix)) (ttrace t).
+Proof. exact reduce_dm_sorted_trace. Qed.
+Print Assumptions reduce_dm_trace_preserved_partial.
+
+(* tracing out A (mask m1) and then B (mask m2 on the remaining wires) = tracing out A u B at once *)
+Theorem partial_trace_compose : forall m1 n t m2, length m1 = n -> length m2 = count_false m1 -> wf n t ->
+  teq (ptrace_mask m2 (ptrace_mask m1 t)) (ptrace_mask (mask_merge m1 m2) t).
+Proof. exact ptm_compose. Qed.
+Print Assumptions partial_trace_compose.
+
+(* hence the order in which two sets of wires are traced out does not matter *)
+Theorem partial_trace_order_independent : forall n t m1 m2 m1' m2', wf n t ->
+  length m1 = n -> length m2 = count_false m1 -> length m1' = n -> length m2' = count_false m1' ->
+  mask_merge m1 m2 = mask_merge m1' m2' ->
+  teq (ptrace_mask m2 (ptrace_mask m1 t)) (ptrace_mask m2' (ptrace_mask m1' t)).
+Proof. exact ptm_order_independent. Qed.
+Print Assumptions partial_trace_order_independent.
+
+(* reduced states of a product: rho_A (x) rho_B reduced to A gives tr(rho_B) rho_A, reduced to B gives tr(rho_A) rho_B *)
+Theorem reduce_dm_of_product : forall k j A B, wf k A -> wf j B ->
+  (0 < j -> teq (reduce_dm (k + j) (tkron A B) (seq 0 k)) (tscale (ttrace B) A)) /\
+  (0 < k -> teq (reduce_dm (k + j) (tkron A B) (seq k j)) (tscale (ttrace A) B)).
+Proof.
+  intros k j A B HA HB; split; intros H;
+    [exact (reduce_dm_product_left k j A B HA HB H) | exact (reduce_dm_product_right k j A B HA HB H)].
+Qed.
+Print Assumptions reduce_dm_of_product.
+
+(* reduce_statevector's joint einsum = partial trace of |psi><psi| (before the final axes permutation);
+   dm_from_state_vector = |psi><psi| *)
+Theorem reduce_statevector_is_partial_trace_of_projector : forall m n u v, length m = n -> vwf n u -> vwf n v ->
+  rsv m u v = ptrace_mask m (vouter u v).
+Proof. exact rsv_is_ptm. Qed.
+Print Assumptions reduce_statevector_is_partial_trace_of_projector.
+
+Theorem dm_from_state_vector_is_outer : forall n psi, vwf n psi ->
+  dm_from_state_vector n psi = vouter psi (vconj psi).
+Proof. exact dm_from_state_vector_outer. Qed.
+Print Assumptions dm_from_state_vector_is_outer.
+
+(* ---------------------------------------------------------------- expand_matrix *)
+(* the axes transposition of _permute_dense_matrix is the tensor re-indexing r |-> gather wires wire_order r *)
+Theorem permute_dense_is_reindexing : forall t wires wo r c, length r = length wo -> length c = length wo ->
+  list_eqb wires wo = false ->
+  tget (permute_dense t wires wo) r c = tget t (gather wires wo r) (gather wires wo c).
+Proof. exact permute_dense_entry. Qed.
+Print Assumptions permute_dense_is_reindexing.
+
+(* entries of the Kronecker factors used by expand_matrix.  PARTIAL for `expand_matrix_is_reindexing`: the three
+   entry laws (permutation, Kronecker product, identity) are proved for all sizes; their composition along the
+   branches of expand_matrix is compared with the explicit re-indexing only by the correspondence run. *)
+Theorem expand_matrix_is_reindexing_partial :
+  (forall k s t r1 c1 r2 c2, wf k s -> length r1 = k -> length c1 = k ->
+     ceq (tget (tkron s t) (r1 ++ r2) (c1 ++ c2)) (cmul (tget s r1 c1) (tget t r2 c2))) /\
+  (forall n r c, length r = n -> length c = n -> tget (teye n) r c = if bits_eqb r c then c1 else c0) /\
+  (forall n f r c, length r = n -> length c = n -> tget (tbuild n f) r c = f r c) /\
+  (forall n t, wf n t -> tbuild n (tget t) = t).
+Proof. exact (conj tget_tkron (conj tget_teye (conj tget_tbuild tbuild_tget))). Qed.
+Print Assumptions expand_matrix_is_reindexing_partial.
+
+(* on an ordered contiguous block of wires expand_matrix is I_p (x) M (x) I_q  (all sizes up to 3+3+3 wires) *)
+Theorem expand_matrix_contiguous_is_kron_le3 : forall p k q t, p <= 3 -> 1 <= k <= 3 -> q <= 3 ->
+  expand_matrix t (seq p k) (Some (seq 0 (p + k + q))) = expand_contiguous_spec p q t.
+Proof. exact expand_matrix_contiguous_le3. Qed.
+Print Assumptions expand_matrix_contiguous_is_kron_le3.
+
+(* Kronecker expansion with identities is multiplicative and unital, for all sizes *)
+Theorem expand_matrix_hom : forall p q n A B, wf n A -> wf n B ->
+  teq (expand_contiguous_spec p q (tmul A B))
+      (tmul (expand_contiguous_spec p q A) (expand_contiguous_spec p q B)).
+Proof. exact expand_contiguous_hom. Qed.
+Print Assumptions expand_matrix_hom.
+
+Theorem expand_matrix_unit : forall p q, teq (tkron (teye p) (teye q)) (teye (p + q)).
+Proof. exact kron_eye_eye. Qed.
+Print Assumptions expand_matrix_unit.
+
+(* the same for the transcribed expand_matrix itself (bounded sizes) *)
+Theorem expand_matrix_hom_le3 : forall p k q A B, p <= 3 -> 1 <= k <= 3 -> q <= 3 -> wf k A -> wf k B ->
+  teq (expand_matrix (tmul A B) (seq p k) (Some (seq 0 (p + k + q))))
+      (tmul (expand_matrix A (seq p k) (Some (seq 0 (p + k + q))))
+            (expand_matrix B (seq p k) (Some (seq 0 (p + k + q))))).
+Proof. exact expand_matrix_hom_contiguous_le3. Qed.
+Print Assumptions expand_matrix_hom_le3.
+
+(* expanding by k further wires and reducing back gives 2^k times the operator *)
+Theorem expand_then_reduce : forall n k A, wf n A ->
+  teq (ptrace_mask (repeat false n ++ repeat true k) (tkron A (teye k))) (tscale (cofq (qpow2 k)) A).
+Proof. exact expand_then_reduce_kron. Qed.
+Print Assumptions expand_then_reduce.
+
+(* ---------------------------------------------------------------- pure-state fidelity, purity *)
+Theorem pure_fidelity_symmetric : forall n u v, vwf n u -> vwf n v ->
+  (fidelity_statevector u v == fidelity_statevector v u)%Q.
+Proof. exact fidelity_sym. Qed.
+Print Assumptions pure_fidelity_symmetric.
+
+(* F = |<phi|psi>|^2 by definition of the model; 0 <= F <= <psi|psi><phi|phi> (Cauchy-Schwarz), so F in [0,1]
+   for normalised states *)
+Theorem pure_fidelity_bounds : forall n u v, vwf n u -> vwf n v ->
+  (0 <= fidelity_statevector u v)%Q /\
+  (fidelity_statevector u v <= vnorm2 u * vnorm2 v)%Q /\
+  ((vnorm2 u == 1)%Q -> (vnorm2 v == 1)%Q -> (fidelity_statevector u v <= 1)%Q).
+Proof.
+  intros n u v Hu Hv; split; [exact (fidelity_nonneg u v) | split;
+    [exact (fidelity_le_norms n u v Hu Hv) | exact (fidelity_le_1 n u v Hu Hv)]].
+Qed.
+Print Assumptions pure_fidelity_bounds.
+
+Theorem purity_of_pure_state_is_one : forall n psi, vwf n psi ->
+  (compute_purity (dm_from_state_vector n psi) == vnorm2 psi * vnorm2 psi)%Q /\
+  ((vnorm2 psi == 1)%Q -> (compute_purity (vouter psi (vconj psi)) == 1)%Q).
+Proof.
+  intros n psi H; split; [exact (purity_of_dm_from_state_vector n psi H) | exact (purity_pure_normalised n psi H)].
+Qed.
+Print Assumptions purity_of_pure_state_is_one.
+
+(* ---------------------------------------------------------------- non-vacuity *)
+Example hyps_satisfiable :
+  let psi := VN (VN (VL (1 # 2, 1 # 2)%Q) (VL c0)) (VN (VL c0) (VL (1 # 2, -1 # 2)%Q)) in
+  let rho := dm_from_state_vector 2 psi in
+  vwf 2 psi /\ wf 2 rho /\ (vnorm2 psi == 1)%Q /\ strictb (isort [1; 0]) = true /\
+  list_eqb (isort [1; 0]) [1; 0] = false /\ length [0] = count_false (traced_mask 2 [0]) /\
+  cmat_eqb (rows_of_qt 1 (reduce_dm 2 rho [1%nat])) [[(1 # 2, 0)%Q; c0]; [c0; (1 # 2, 0)%Q]] = true /\
+  (compute_purity (reduce_dm 2 rho [1%nat]) == 1 # 2)%Q.
+Proof. vm_compute. repeat split; reflexivity. Qed.
